@@ -96,7 +96,8 @@ Definition lost (D : list nat) (x : dna) : nat := length x - length (remove_name
 Definition max_nat (l : list nat) : nat := fold_right Nat.max 0%nat l.
 
 (* ---------- the property ---------- *)
-Definition spec_ok (c : call) (o : outcome) : bool :=
+(* the clauses that depend on the scope of the variant table *)
+Definition spec_core (c : call) (o : outcome) : bool :=
   match c with
   | CSub X subs =>
       let B := length (tX X) in let A := tA X in let L := tL X in
@@ -150,6 +151,19 @@ Definition spec_ok (c : call) (o : outcome) : bool :=
       else true
   end.
 
+(* "the 'before' output is func on the reference sequence trimmed to the same length from the
+   same side": substitutions and insertions keep the length, so whenever such a call returns -
+   whatever the variant table - 'before' is the reference itself.  (For deletions the common
+   length depends on the table; that clause is in [spec_core].) *)
+Definition before_ok (c : call) (o : outcome) : bool :=
+  match c, o with
+  | CSub X _, Ok (Xb, _) => batch_eqb Xb (tX X)
+  | CIns X _ _, Ok (Xb, _) => batch_eqb Xb (tX X)
+  | _, _ => true
+  end.
+
+Definition spec_ok (c : call) (o : outcome) : bool := before_ok c o && spec_core c o.
+
 Definition model (c : call) : outcome :=
   match c with
   | CSub X subs => substitution_effect X subs
@@ -168,7 +182,11 @@ Definition model_v0 (c : call) : outcome :=
 Definition outcome_eqb (o1 o2 : outcome) : bool :=
   res_eqb (fun p q => batch_eqb (fst p) (fst q) && batch_eqb (snd p) (snd q)) o1 o2.
 
-Definition case := (call * outcome)%type.
+(* one correspondence case: the call, the pair of tensors that reached func (or "raised"), and
+   one bit observed by the harness that has no counterpart in the functional model: every call of
+   func received the caller's model, args and keyword arguments ("apply func", not some other
+   function of the sequences) *)
+Definition case := (call * outcome * bool)%type.
 
 Definition check_case (c : case) : nat :=
-  let '(cl, o) := c in verdict (outcome_eqb o (model cl)) (spec_ok cl o).
+  let '(cl, o, plumbed) := c in verdict (outcome_eqb o (model cl)) (plumbed && spec_ok cl o).
